@@ -2546,7 +2546,10 @@ impl Connection {
                 src_cid: rem_cid, ..
             } => {
                 if self.side.is_server() {
-                    return Err(TransportError::PROTOCOL_VIOLATION("client sent Retry").into());
+                    // Retry packets carry no protection a server could check: anyone who has seen
+                    // our CID can forge one, so it must not be able to end the connection
+                    trace!("discarding Retry received by server");
+                    return Ok(());
                 }
 
                 if self.total_authed_packets > 0
